@@ -53,6 +53,42 @@ CHECKS = {
          "lists over {x,y,z-dangling} on root and loggers): strict success iff well-formed, reported names = offending names (no innocent, none missing), lossy result = valid items in order, "
          "and every returned Config goes through Logger::new and is logged through with deliveries checked by the reference router.",
          "Trusted: well-formedness read literally from the property text (so '::a' is well-formed).", "DESIGN.md §5 C13"),
+ "C04": ("model_checking", "E-HIST + E-SCHED",
+         "explicit-state BFS over a reference model with per-transition replay on the real appender, plus preemption-bounded exhaustive schedule exploration of real threads",
+         "Sequential: per world (open mode, pre-existing file absent/empty/non-empty, nested directories, 1- or 3-chunk encoder) all histories of append(0|1|1023|1024|1025|2500 bytes) and reopen to depth 4 (6); "
+         "every transition out of every distinct model state is replayed from scratch and the file is read back after every call. Concurrent: 2-3 real OS threads x 1-2 appends under a baton scheduler whose "
+         "scheduling points are the library's own lock operations (cfg-guarded shim Mutex) and the encoder's chunk boundaries; every schedule with at most 2 (3) preemptions is executed; each returned append "
+         "must already be readable, the final file must be whole records, each once, per-thread order kept. A dropped flush or a narrowed critical section needs one specific preemption, which the bound covers.",
+         "Trusted: data-race freedom of safe Rust, sequentially consistent hand-over at points; more than 3 threads / more preemptions than the bound are not covered.", "DESIGN.md §5 C04"),
+ "C05": ("model_checking", "E-HIST + E-SCHED",
+         "explicit-state BFS over a reference model of appender+trigger+roller with per-transition replay on the real implementation, plus preemption-bounded schedule exploration",
+         "Per world (7 trigger kinds incl. user-defined pre/post-processing triggers and the real time trigger under a driven clock x 7 rollers (delete, fixed window base/count incl. 0 and 1, .gz, .zst) x open mode x "
+         "pre-existing file) all histories over append(0|10|1500 bytes), restart, arm, tick to depth 5 (7); after every step the decompressed directory equals the model and archives oldest->newest ++ active is a "
+         "record-aligned suffix of the acknowledged stream. Concurrent writers: 2-3 threads under the baton scheduler with limits that force rotations inside the run, all schedules up to 2 (3) preemptions.",
+         "Trusted: the reference model in rolling.rs; background_rotation feature not explored; truncate-mode restarts are compared with the model only.", "DESIGN.md §5 C05"),
+ "C06": ("model_checking", "E-HIST",
+         "explicit-state BFS over the reference model with per-transition replay; an observing Policy compares len_estimate() with the true file size at every consultation",
+         "Limits N in {0,1,10,1024,1030} x pre-existing sizes {absent,0,N-1,N,N+1} x open mode; operations append(size in {0,1,N-1,N,N+1,1500}, multi-byte text) and restart, depth 5 (7); at every policy consultation "
+         "len_estimate() must equal fs::metadata().len(), the policy rolls iff size > N, and the directory equals the model after every step.",
+         "Trusted: reference model; nobody else writes to the file.", "DESIGN.md §5 C06"),
+ "C07": ("model_checking", "E-ENUM",
+         "exhaustive enumeration of roller configurations x initial directory states x roll chains against a shift-register reference with full directory snapshots",
+         "9 pattern shapes (index in file name / directory / repeated / set and unset $ENV / .gz / .zst / beside the active file) x bases {0,1,3,4e9} and the corner base+count-1=u32::MAX x counts 0..4 (5) x "
+         "every subset of the window as initial archives (gaps) x bystander files with near-miss names x chains of count+3 rolls; after every roll the recursive snapshot must equal the reference: "
+         "rolled file gone, slot b+j = (j+1)-th newest (decompressed), nothing else created, modified or removed.",
+         "Trusted: shift-register reference; the slot above a gap may keep or lose its stale archive.", "DESIGN.md §5 C07"),
+ "C08": ("fault_enumeration", "E-FAULT",
+         "libc interposition: every counted file-system call of every rotation is a crash point and a failing step; all continuations up to a depth follow",
+         "62 scenarios (open mode x window 1..3 x plain/.gz x post-processing size trigger / pre-processing scripted trigger, each rotation of a window-filling history as target, a 1500-byte record in flight). "
+         "The calls the implementation really makes are enumerated by interposing open/write/rename/unlink/mkdir/... in the harness binary: for every call k the image immediately before k (process death) is checked "
+         "and restarted with every continuation; call k fails with each errno (and every later call k2 as a second fault), followed by every continuation on the same and on a restarted appender; obstacles at the top "
+         "archive slot as an interposition-free fault. Oracle: managed files oldest->newest read as a gap-free suffix of the acknowledged stream and between observations only a whole file at the last window slot may vanish.",
+         "Crash model = process death (log4rs never fsyncs); a failing call has no effect. Unacknowledged records may be absent, partial or present.", "DESIGN.md §5 C08"),
+ "C17": ("model_checking", "E-HIST + E-SCHED",
+         "explicit-state BFS over the reference model with per-transition replay, plus preemption-bounded schedule exploration of simultaneous first appends",
+         "min_size in {0,1,5} x pre-existing file absent/0/min-1/min/min+1 bytes x open mode x roller; histories over append(0|1|3|6 bytes) and restart to depth 5 (7): per lifetime at most one rotation, only at the first "
+         "record, iff size >= min_size; the pre-existing bytes become archive 0 and the active file starts with the first new record. Schedules: 2-3 threads issue the first appends simultaneously, all schedules up to 2 (3) preemptions.",
+         "Trusted: reference model.", "DESIGN.md §5 C17"),
  "C12": ("model_checking", "E-ENUM",
          "bounded exhaustive enumeration of records over an escape-class alphabet, output re-parsed by an independent strict JSON parser; plus fault histories",
          "Every string up to length 3 (4) over 16 escape classes (quote, backslash, slash, LF, CR, TAB, NUL, U+001F, DEL, 2/3/4-byte characters, U+2028, BS, FF) in each of the 7 text "
